@@ -2,8 +2,8 @@
 import ast
 import re
 
-from sa import tables, templ, pyflow, fmtfields
-from sa.loader import AnalysisError, enclosing_function
+from sa import pattern as pat, tables, templ, pyflow, fmtfields
+from sa.loader import parent_chain, AnalysisError, enclosing_function
 
 EXPLANATION = (
     "(R1) per typemap the Lua type tag, the pop expression and the push expression belong to one family "
@@ -221,6 +221,49 @@ def rule_x(repo, run):
     import_rules(run, R, c15, repo, {"C15.R4"}, only=lambda c: "lua" in c.lower())
 
 
+def rule_r5(repo, run):
+    R = run.rule("C18.R5", "per-argument data in the Lua emitter: the type tested for an argument is that argument's, "
+                           "and a value is stashed before the template that consumes it is expanded")
+    wl = repo.module("wrapl")
+    f = wl.func("Wrapl.wrap_function")
+    n = 0
+    for lp in ast.walk(f):
+        if not (isinstance(lp, ast.For) and isinstance(lp.iter, ast.Call) and pyflow.is_name(lp.iter.func, "enumerate")
+                and "inargs" in wl.seg(lp.iter)):
+            continue
+        argv = lp.target.elts[1].id if isinstance(lp.target, ast.Tuple) and len(lp.target.elts) == 2 else None
+        for a in ast.walk(lp):
+            if isinstance(a, ast.Assign) and isinstance(a.targets[0], ast.Attribute) and a.targets[0].attr == "itype":
+                n += 1
+                roots = [x.id for x in ast.walk(a.value) if isinstance(x, ast.Name)]
+                ok = True
+                for rname in roots:
+                    if rname == argv:
+                        continue
+                    defs = [d for d in ast.walk(lp) if isinstance(d, ast.Assign) and pyflow.is_name(d.targets[0], rname)
+                            and d.lineno < a.lineno and argv in [x.id for x in ast.walk(d.value) if isinstance(x, ast.Name)]]
+                    ok = ok and bool(defs)
+                run.check(R, "wrapl.Wrapl.wrap_function:itype-of-argument", ok,
+                          "`%s` inside the loop over a call's arguments does not derive from the loop's argument `%s` in this "
+                          "loop: every argument is tested against the Lua type of whatever argument an earlier loop left behind"
+                          % (wl.seg(a), argv), wl.loc(a))
+    run.floor(R, "type-test assignments", n, 1)
+    df = wl.func("Wrapl.do_function")
+    conv = [a for a in ast.walk(df) if isinstance(a, ast.Assign) and isinstance(a.targets[0], ast.Attribute)
+            and a.targets[0].attr == "pop_expr" and "c_to_cxx" in wl.seg(a.value)]
+    for a in conv:
+        blk = [b for p_ in parent_chain(a) for fld in ("body", "orelse") for b in [getattr(p_, fld, None)]
+               if isinstance(b, list) and any(x is a for x in b)]
+        before = [st for st in (blk[0] if blk else []) if st.lineno < a.lineno]
+        stash = any(pat.match(pat.parse("MV_F.c_var = MV_F.pop_expr")[1], st, {}) for st in before)
+        run.check(R, "wrapl.Wrapl.do_function:c_to_cxx-order", stash,
+                  "the c_to_cxx template reads {c_var}; the expression popped from the Lua stack must be stored in c_var "
+                  "*before* pop_expr is overwritten with the expanded template, otherwise the variable is initialised from "
+                  "itself", wl.loc(a))
+    if not conv:
+        raise AnalysisError("C18.R5: c_to_cxx conversion of do_function not found")
+
+
 def run(repo, run, tier):
     tables.check_model_assumptions(repo)
     types = tables.TypeTable(repo)
@@ -228,3 +271,4 @@ def run(repo, run, tier):
     rule_r2(repo, run)
     rule_r3(repo, run, types)
     rule_x(repo, run)
+    rule_r5(repo, run)
